@@ -66,7 +66,8 @@ Definition rd_mk (a : rdargs) : res rdelta :=
     if truthy_oz a.(a_nlyearday) then (match a.(a_nlyearday) with Some v => v | None => 0 end, 0)
     else if truthy_oz a.(a_yearday) then
       let v := match a.(a_yearday) with Some v => v | None => 0 end in
-      (v, if 59 <? v then -1 else 0)
+      (* if 59 < yearday < 366: self.leapdays = -1     (code after fix f29aa05) *)
+      (v, if (59 <? v) && (v <? 366) then -1 else 0)
     else (0, 0) in
   let md :=
     if yday =? 0 then Ok (a.(a_month), a.(a_day))
